@@ -181,3 +181,33 @@ Definition spec_reduce_calls (rows : list nrow) (cols : list rcol) : list (list 
       (seq 0 (length rows)).
 
 Definition m_count_nested (rows : list nrow) : list nat := row_lens rows.
+
+(* ---------- mask-based form of the per-row filter (what the correspondence check evaluates: the
+   per-record truth values come from the evaluator, row by row) ---------- *)
+Definition spec_filter_mask (rows : list nrow) (masks : list (list bool)) : list nrow :=
+  map2 (fun r m => nonempty_or_missing (mask_filter m (recs r))) rows masks.
+
+(* whole-row selection of a frame column (base-layer query / dropna): tables intact *)
+Definition spec_select_rows (rows : list nrow) (mask : list bool) : list nrow := mask_filter mask rows.
+
+(* verified checker for under-determined sorting results (ties): rows' is an acceptable result of sorting
+   rows by rec_le iff same length, row-wise permutation (as multisets of records, by count), sorted, and a
+   row without records is missing *)
+Definition record_eqb : record -> record -> bool := list_eqb val_eqb.
+Fixpoint remove_first (x : record) (l : list record) : option (list record) :=
+  match l with
+  | [] => None
+  | y :: t => if record_eqb x y then Some t else option_map (cons y) (remove_first x t)
+  end.
+Fixpoint perm_b (a b : list record) : bool :=
+  match a with
+  | [] => match b with [] => true | _ => false end
+  | x :: t => match remove_first x b with Some b' => perm_b t b' | None => false end
+  end.
+Definition nrow_eqb : nrow -> nrow -> bool := option_eqb (list_eqb record_eqb).
+Definition nrows_eqb : list nrow -> list nrow -> bool := list_eqb nrow_eqb.
+Definition check_sorted_rows (rec_le : record -> record -> bool) (rows rows' : list nrow) : bool :=
+  (length rows =? length rows')
+  && forallb2 (fun r r' => perm_b (recs r) (recs r') && sorted_recs rec_le (recs r')
+                           && match r' with Some [] => false | Some _ => true | None => length (recs r) =? 0 end)
+              rows rows'.
